@@ -432,7 +432,7 @@ class Interp(ExprMixin, CallMixin, AnyMixin):
         if isinstance(v, Ref):
             return Ref(z3.Int(fresh_name(hint)))
         if isinstance(v, TimeDelta):
-            return v
+            return TimeDelta(z3.Real(fresh_name(hint)))
         raise Unsupported(f"havoc of {v!r} needs an explicit loop-spec sort")
 
     def havoc_heap(self, roots, seen=None):
